@@ -249,4 +249,63 @@ void alias(vf::Draw &d, vf::Ctx &ctx) {
   static const Desc D = {PK, FORM, MUL, OPS, (int)PD::rank, PD::arr(), AXI::get(), BXI::get(), VALS};
   alias_driver<T>(d, ctx, D, &al<T, PK, FORM, MUL, OPS, PD, AL, BL>::run);
 }
+
+// ---- boolean tensors: noalias() assignment of a logical / comparison expression over overlapping slices of the SAME Tensor<bool> ----
+// (the only element type for which a boolean expression is an admissible right-hand side; the expression operators of the views
+// dispatch boolean right-hand sides through a separate branch)
+template <size_t M, size_t N, int RANK>
+void boolthunk(bool *a, const int *dr, const int *s1, const int *s2, int form) { vf::ArmedThunk vf_armed_;
+  using namespace Fastor;
+  if constexpr (RANK == 2) {
+    Tensor<bool, M, N> A; std::copy(a, a + M * N, A.data());
+    auto D = [&](const int *r) { return A(seq(r[0], r[1], r[2]), seq(r[3], r[4], r[5])); };
+    if (form == 0) D(dr).noalias() = !D(s1);
+    else if (form == 1) D(dr).noalias() = (D(s1) != D(s2));
+    else if (form == 2) D(dr).noalias() = (D(s1) && D(s2));
+    else D(dr).noalias() = (D(s1) == D(s2));
+    std::copy(A.data(), A.data() + M * N, a);
+  } else {
+    Tensor<bool, N> A; std::copy(a, a + N, A.data());
+    auto D = [&](const int *r) { return A(seq(r[3], r[4], r[5])); };
+    if (form == 0) D(dr).noalias() = !D(s1);
+    else if (form == 1) D(dr).noalias() = (D(s1) != D(s2));
+    else if (form == 2) D(dr).noalias() = (D(s1) && D(s2));
+    else D(dr).noalias() = (D(s1) == D(s2));
+    std::copy(A.data(), A.data() + N, a);
+  }
+}
+template <size_t M, size_t N, int RANK>
+void boolalias(vf::Draw &d, vf::Ctx &ctx) {
+  const int dim[2] = {RANK == 2 ? (int)M : 1, (int)N};
+  std::vector<int64_t> v; d.fill(v, M * N, 0, 1, 0);
+  bool a[M * N], ref[M * N], snap[M * N];
+  for (size_t i = 0; i < M * N; ++i) a[i] = snap[i] = ref[i] = v[i] != 0;
+  // one extent per axis, three ranges (destination, two sources) of that extent: same stride, shifted by -2..2 (partial overlap is the point)
+  int r[3][6];
+  for (int ax = 0; ax < 2; ++ax) {
+    int n = (int)d.integer(1, dim[ax]), st = (int)d.integer(1, 2);
+    while ((n - 1) * st + 1 > dim[ax]) { if (st > 1) --st; else --n; }
+    int room = dim[ax] - ((n - 1) * st + 1);
+    for (int k = 0; k < 3; ++k) { int f = (int)d.integer(0, room); r[k][3 * ax] = f; r[k][3 * ax + 1] = f + (n - 1) * st + 1; r[k][3 * ax + 2] = st; }
+    if (RANK == 1 && ax == 0) for (int k = 0; k < 3; ++k) { r[k][0] = 0; r[k][1] = 1; r[k][2] = 1; }
+  }
+  int form = (int)d.integer(0, 3);
+  auto at = [&](const bool *b, const int *rg, int i, int j) { return b[(rg[0] + i * rg[2]) * dim[1] + rg[3] + j * rg[5]]; };
+  int n0 = (r[0][1] - r[0][0] - 1) / r[0][2] + 1, n1 = (r[0][4] - r[0][3] - 1) / r[0][5] + 1;
+  bool overlap = false;
+  for (int i = 0; i < n0; ++i) for (int j = 0; j < n1; ++j) {
+    bool x = at(snap, r[1], i, j), y = at(snap, r[2], i, j);
+    bool val = form == 0 ? !x : form == 1 ? (x != y) : form == 2 ? (x && y) : (x == y);
+    ref[(r[0][0] + i * r[0][2]) * dim[1] + r[0][3] + j * r[0][5]] = val;
+  }
+  for (int k = 1; k < 3; ++k) if (!(r[k][0] == r[0][0] && r[k][3] == r[0][3])) overlap = true;
+  ctx.nt(n0 * n1 >= 2 && overlap);
+  static const char *fn[] = {"A(d).noalias() = !A(s)", "A(d).noalias() = (A(s) != A(s2))", "A(d).noalias() = (A(s) && A(s2))", "A(d).noalias() = (A(s) == A(s2))"};
+  ctx.label(std::string("boolform:") + fn[form]);
+  char nb[256]; snprintf(nb, sizeof nb, "Tensor<bool,%zux%zu> %s d=[%d:%d:%d,%d:%d:%d] s=[%d:%d:%d,%d:%d:%d] s2=[%d:%d:%d,%d:%d:%d]", M, N, fn[form],
+                         r[0][0], r[0][1], r[0][2], r[0][3], r[0][4], r[0][5], r[1][0], r[1][1], r[1][2], r[1][3], r[1][4], r[1][5], r[2][0], r[2][1], r[2][2], r[2][3], r[2][4], r[2][5]);
+  ctx.note = nb;
+  boolthunk<M, N, RANK>(a, r[0], r[1], r[2], form);
+  for (size_t i = 0; i < M * N; ++i) if (a[i] != ref[i]) { ctx.fail("%s: flat offset %zu holds %d, snapshot model says %d (original %d)", nb, i, (int)a[i], (int)ref[i], (int)snap[i]); return; }
+}
 } // namespace c18
